@@ -1,1 +1,9 @@
-pub fn x(){}
+//! gk: real generated modules (emitted by /repo's generator in build.rs) + Kani harnesses derived
+//! from the definitions.  See build.rs.
+#![allow(static_mut_refs)]
+#[macro_use]
+extern crate static_assertions;
+
+pub mod support;
+
+include!(concat!(env!("OUT_DIR"), "/corpus.rs"));
